@@ -8,7 +8,7 @@ History-independence of values is behavioural.  Decided clauses:
   R3  a field name that was never interned behaves exactly like an absent field
 """
 from . import cg, prov, kwalk, cfg, evalmarks as em
-from .facts import callee_name
+from .facts import callee_name, AnchorMissing
 
 EXPLANATION = (
     "Static analysis: call-graph reachability from the error exit of Evaluator::eval to any mutator of "
@@ -259,12 +259,63 @@ def rule_r3(F, rep):
     rep.floor(R, n + 3, 6, "get_interned sites")
 
 
+def rule_r5(F, rep):
+    R = rep.rule("C11.R5", "what a request schedules depends only on the kind of request, never on what earlier requests "
+                 "left memoised: for each EvalInput variant Evaluator::eval pushes one fixed sequence of states on every path "
+                 "(value requests always include the deep evaluation pass, even when the thunk is already finished)")
+    ev = F.fn("<%s>::eval" % em.EVAL)
+    rep.fn(ev)
+    body = ev.body
+    INPUT = "rsjsonnet_lang::program::eval::EvalInput"
+    fields = em.eval_fields(F)
+    # the evaluator under construction is a local of type Evaluator
+    this_l = [l for l in range(len(body.locals)) if body.local_ty(l)["k"] == "adt" and body.local_ty(l)["d"] == em.EVAL]
+    inp_l = [l for l in range(1, body.argc + 1) if body.local_ty(l)["k"] == "adt" and body.local_ty(l)["d"] == INPUT]
+    if not this_l or not inp_l:
+        raise AnchorMissing("Evaluator::eval: evaluator local / input argument")
+    this_l = this_l[0]
+    exp = {"Value": ("DeepValue", "DoThunk"), "Call": ("DeepValue", "TopLevelCall", "DoThunk"), "ManifestJson": ("ManifestJson", "DoThunk")}
+    for v in F.variants(INPUT):
+        def on_term(w, bb, t, env):
+            if t["k"] != "call":
+                return None
+            n = callee_name(t) or ""
+            if n == "<%s>::run" % em.EVAL:
+                return kwalk.STOP
+            if n == "<alloc::vec::Vec>::push":
+                a = w.val(env, t["xs"][0])
+                if isinstance(a, tuple) and a[0] == "ref" and a[1].startswith("%d." % this_l):
+                    try:
+                        fi = int(a[1].split(".")[1].split("@")[0])
+                    except ValueError:
+                        return None
+                    if fields[fi] == "state_stack":
+                        return ("push", em.describe(w, env, t["xs"][1]))
+            return None
+        w = kwalk.Walker(F, body, on_term=on_term, ordered_marks=True, dedupe_marks=False, want_ret=False)
+        outs = w.run(0, {str(inp_l[0]): ("var", INPUT, v)})
+        rep.states += w.states_explored
+        seqs = set()
+        for kind, marks, _ in outs:
+            if kind.startswith("diverge"):
+                continue
+            seqs.add(tuple((m[1][0] if isinstance(m[1], tuple) else m[1]) for m in marks if m[0] == "push"))
+        want = exp.get(v)
+        ok = want is not None and seqs == {want}
+        rep.ob(R, "eval|%s" % v, ok, {"request": v, "scheduled": sorted(map(str, seqs))})
+        if not ok:
+            rep.violation(R, "eval|%s|schedule" % v, "a %s request schedules %s (over its paths); it must always schedule %s — a path "
+                          "that skips work because a thunk is already memoised makes the answer depend on earlier requests"
+                          % (v, sorted(map(str, seqs)), want), ev.loc)
+
+
 def run(F, rep, tier):
     rule_r1(F, rep)
     rule_r2(F, rep)
     rule_r3(F, rep)
     from . import objflags
     objflags.rule(F, rep, "C11.R4")
+    rule_r5(F, rep)
     rep.assume("order-independence of values in general and collections between requests (C03) are not decided; "
                "the interner and arena are append-only and their order is unobservable (C05.R4)")
     return EXPLANATION
